@@ -4,6 +4,8 @@ import (
 	"fmt"
 	"strings"
 	"time"
+
+	"github.com/omec-project/upf-epc/zzverif/vsim"
 )
 
 func init() {
@@ -88,6 +90,15 @@ func scenarioC04(r *Run) {
 			r.Violate("C04", "no-association-response", "Association Setup got no response (strategy %v steps=%d sync=%d spin=%d)\n%s", r.Sim.Strat, r.Sim.Steps, r.Sim.SyncSteps, r.Sim.SpinBreaks, strings.Join(r.Sim.BlockedTable(), "\n"))
 			return
 		}
+	}
+	if r.Ch.Choose(6, "few-ids-left") == 1 {
+		// nearly all tunnel-peer / application ids are taken: a history with a few
+		// gNBs and filters reaches the end of the pools (a request that cannot get
+		// an id must be refused, not installed under somebody else's id)
+		keep := 1 + r.Ch.Choose(3, "ids-left")
+		a := r.Agent
+		vsim.Ephemeral(func() { a.VerifUP4ShrinkIDPools(keep) })
+		r.Probe("few-tunnel-peer-and-application-ids-left")
 	}
 	g := NewGen(r)
 	g.PlainQER = true
